@@ -6,6 +6,7 @@
 From CCTZ Require Import Base SrcConstants Cal CivilImpl PosixImpl FixedImpl ZoneLoad ZoneImpl
   ZoneZ ZoneHist ZoneRefineDefs FormatImpl ParseImpl FinishDefs.
 From CCTZ Require Import CalProofs CivilNorm CivilDiff ZoneZProofs ZoneRefine.
+From CCTZ Require Import FmtSpec ParseProofs FmtProofs.
 Require Import Lia ZifyBool.
 Local Open Scope Z_scope.
 Local Ltac Zify.zify_post_hook ::= idtac.
@@ -66,21 +67,24 @@ Qed.
 (* ================================================================== *)
 (* civil_second::max() / min() on the integer civil time line           *)
 
-Definition MX : Z := sec_of civil_max64.
-Definition MN : Z := sec_of civil_min64.
+Definition MX : Z := 291061508645168328976559999.
+Definition MN : Z := -291061508645168453310998400.
 
 Lemma valid_cmax : valid_fields civil_max64 = true.
 Proof. vm_compute. reflexivity. Qed.
 Lemma valid_cmin : valid_fields civil_min64 = true.
 Proof. vm_compute. reflexivity. Qed.
+Lemma MX_eq : sec_of civil_max64 = MX. Proof. vm_compute. reflexivity. Qed.
+Lemma MN_eq : sec_of civil_min64 = MN. Proof. vm_compute. reflexivity. Qed.
 Lemma cos_MX : cos MX = civil_max64.
-Proof. apply cos_sec_of. exact valid_cmax. Qed.
+Proof. rewrite <- MX_eq. apply cos_sec_of. exact valid_cmax. Qed.
 Lemma cos_MN : cos MN = civil_min64.
-Proof. apply cos_sec_of. exact valid_cmin. Qed.
+Proof. rewrite <- MN_eq. apply cos_sec_of. exact valid_cmin. Qed.
 Lemma MX_big : max64 + 86400 < MX.
 Proof. apply Z.ltb_lt. vm_compute. reflexivity. Qed.
 Lemma MN_small : MN < min64 - 86400.
 Proof. apply Z.ltb_lt. vm_compute. reflexivity. Qed.
+Global Opaque MX MN.
 
 Lemma year_between s : MN <= s <= MX -> int64 (fy (cos s)).
 Proof.
@@ -99,14 +103,14 @@ Lemma plus_cmax off : int64 off -> int64 (fy (cos (MX + off))) ->
 Proof.
   intros Io IY.
   pose proof (plus_refines_lemma 0 civil_max64 off ltac:(lia) valid_cmax (align0 _) i64_max Io) as P.
-  rewrite ord0, oford0 in P. exact (P IY).
+  rewrite ord0, oford0, MX_eq in P. exact (P IY).
 Qed.
 Lemma plus_cmin off : int64 off -> int64 (fy (cos (MN + off))) ->
   plus64 0 civil_min64 off = OK (cos (MN + off)).
 Proof.
   intros Io IY.
   pose proof (plus_refines_lemma 0 civil_min64 off ltac:(lia) valid_cmin (align0 _) i64_min Io) as P.
-  rewrite ord0, oford0 in P. exact (P IY).
+  rewrite ord0, oford0, MN_eq in P. exact (P IY).
 Qed.
 
 (* ================================================================== *)
@@ -184,7 +188,7 @@ Proof.
       rewrite (plus_cmax off Io IY). cbn [bind].
       rewrite lt_r by exact Vf. fold Lc.
       eexists; split; [reflexivity|]. split; intros Hg.
-      + apply Z.ltb_lt in Hg. unfold in64. lia.
+      + apply Z.ltb_lt in Hg. unfold in64, min64, max64. lia.
       + apply Z.ltb_ge in Hg.
         pose proof (cos_year_mono Lc (Lc - off) ltac:(lia)) as M1.
         pose proof (cos_year_mono (Lc - off) MX ltac:(lia)) as M2.
@@ -195,7 +199,7 @@ Proof.
         rewrite (plus_cmin off Io IY). cbn [bind].
         rewrite lt_l by exact Vf. fold Lc.
         eexists; split; [reflexivity|]. split; intros Hg.
-        * apply Z.ltb_lt in Hg. unfold in64. lia.
+        * apply Z.ltb_lt in Hg. unfold in64, min64, max64. lia.
         * apply Z.ltb_ge in Hg.
           pose proof (cos_year_mono (Lc - off) Lc ltac:(lia)) as M1.
           pose proof (cos_year_mono MN (Lc - off) ltac:(lia)) as M2.
@@ -236,3 +240,398 @@ Proof.
     replace (s' <=? max64) with true by (unfold min64, max64 in *; lia).
     replace (min64 <=? s') with true by (unfold min64, max64 in *; lia). reflexivity.
 Qed.
+
+(* ================================================================== *)
+(* Goal 1 (C09)                                                        *)
+
+Lemma finish_utc_correct_lemma : forall tz utc data s,
+  reset_to_builtin_utc 0 = OK utc ->
+  (ps_saw_offset s = true \/ tz = utc) ->
+  ps_saw_s s = false -> ps_week_num s = -1 ->
+  skip_space data = [] ->
+  0 <= tm_sec (ps_tm s) <= 60 -> 0 <= tm_min (ps_tm s) <= 59 -> 0 <= tm_hour (ps_tm s) <= 23 ->
+  1 <= tm_mday (ps_tm s) <= 31 -> 0 <= tm_mon (ps_tm s) <= 11 ->
+  -86399 <= ps_offset s <= 86399 -> int64 (ps_year s) -> -2147483648 <= tm_year (ps_tm s) <= 2147483647 ->
+  (ps_twelve s && ps_afternoon s = false) ->
+  parse_finish tz utc (Some (data, s)) = OK (finish_expected s).
+Proof.
+  intros tz utc data s Hutc Hz Hs Hw Hsp Rs Rmi Rh Rd Rmo Ro Ry Rty H12.
+  unfold parse_finish, finish_expected. rewrite Hsp, Hs, Hw, H12. cbv zeta.
+  cbn [andb]. change (negb (-1 =? -1)) with false. cbv iota.
+  assert (Ep : (if ps_saw_offset s then utc else tz) = utc).
+  { destruct Hz as [->| ->]; [reflexivity|]. destruct (ps_saw_offset s); reflexivity. }
+  rewrite Ep. clear Ep.
+  set (tm := ps_tm s) in *.
+  assert (Iy : int64 (if ps_saw_year s then ps_year s else tm_year tm + 1900)).
+  { destruct (ps_saw_year s); [exact Ry|]. unfold int64, min64, max64. lia. }
+  destruct (Z.eqb_spec (tm_sec tm) 60) as [E60|N60].
+  - (* ":60": second 59, offset - 1, zero fraction *)
+    cbn [tm_with tm_year tm_sec tm_min tm_hour tm_mday tm_mon].
+    assert (EY : (if ps_saw_year s then OK (Some (ps_year s))
+                  else if max64 - 1900 <? tm_year tm then OK None else OK (Some (tm_year tm + 1900)))
+                 = OK (Some (if ps_saw_year s then ps_year s else tm_year tm + 1900))).
+    { destruct (ps_saw_year s); [reflexivity|].
+      destruct (Z.ltb_spec (max64 - 1900) (tm_year tm)) as [C|C]; [unfold max64 in C; lia|reflexivity]. }
+    rewrite EY. cbn [bind]. clear EY.
+    cbn [tm_with tm_year tm_sec tm_min tm_hour tm_mday tm_mon].
+    pose proof (finish_tail_correct utc _ (tm_mon tm + 1) (tm_mday tm) (tm_hour tm) (tm_min tm) 59
+                  (ps_offset s - 1) 0 Hutc Iy ltac:(lia) Rd Rh Rmi ltac:(lia) ltac:(lia)) as T.
+    unfold finish_tail in T. rewrite T. clear T. cbv zeta.
+    replace (days_from_civil (if ps_saw_year s then ps_year s else tm_year tm + 1900) (tm_mon tm + 1) (tm_mday tm) * 86400 +
+             tm_hour tm * 3600 + tm_min tm * 60 + 59 - (ps_offset s - 1))
+      with (days_from_civil (if ps_saw_year s then ps_year s else tm_year tm + 1900) (tm_mon tm + 1) (tm_mday tm) * 86400 +
+             tm_hour tm * 3600 + tm_min tm * 60 + 59 - ps_offset s + 1) by lia.
+    reflexivity.
+  - cbn [tm_with tm_year tm_sec tm_min tm_hour tm_mday tm_mon].
+    assert (EY : (if ps_saw_year s then OK (Some (ps_year s))
+                  else if max64 - 1900 <? tm_year tm then OK None else OK (Some (tm_year tm + 1900)))
+                 = OK (Some (if ps_saw_year s then ps_year s else tm_year tm + 1900))).
+    { destruct (ps_saw_year s); [reflexivity|].
+      destruct (Z.ltb_spec (max64 - 1900) (tm_year tm)) as [C|C]; [unfold max64 in C; lia|reflexivity]. }
+    rewrite EY. cbn [bind]. clear EY.
+    pose proof (finish_tail_correct utc _ (tm_mon tm + 1) (tm_mday tm) (tm_hour tm) (tm_min tm) (tm_sec tm)
+                  (ps_offset s) (ps_subsec s) Hutc Iy ltac:(lia) Rd Rh Rmi ltac:(lia) ltac:(lia)) as T.
+    unfold finish_tail in T. rewrite T. clear T. cbv zeta.
+    rewrite Z.add_0_r. reflexivity.
+Qed.
+
+(* ================================================================== *)
+(* Goal 2 (C07): "%Y-%m-%dT%H:%M:%E*S%E*z" round-trips                 *)
+
+Local Ltac Zify.zify_post_hook ::= Z.to_euclidean_division_equations.
+
+Definition rfc3339 : list Z := (* "%Y-%m-%dT%H:%M:%E*S%E*z" *)
+  [37;89;45;37;109;45;37;100;84;37;72;58;37;77;58;37;69;42;83;37;69;42;122].
+
+(* ---- the rendered text ---- *)
+
+Definition frac_part (fs : Z) : list Z := match frac_min fs with [] => [] | d => 46 :: d end.
+
+Definition rfc_text (cs : fields) (off fs : Z) : list Z :=
+  dec (fy cs) ++ 45 :: dec2 (fm cs) ++ 45 :: dec2 (fd cs) ++ 84 :: dec2 (fhh cs) ++ 58 :: dec2 (fmm cs) ++ 58 ::
+  dec2 (fss cs) ++ frac_part fs ++ render_offset off [58] true false.
+
+Lemma lib_only_rfc :
+  forallb (fun c => negb (c =? 0)) rfc3339 &&
+  forallb (fun t => match t with FLit _ | FPct | FLib _ => true | _ => false end) (lex rfc3339) = true.
+Proof. vm_compute. reflexivity. Qed.
+
+Lemma lex_rfc : lex rfc3339 =
+  [FLib LY; FLit 45; FLib Lm; FLit 45; FLib Ld; FLit 84; FLib LH; FLit 58; FLib LM; FLit 58; FLib LEsS; FLib LEsz].
+Proof. vm_compute. reflexivity. Qed.
+
+Lemma render_rfc so cs off ab fs t tm :
+  render_spec so rfc3339 cs off ab fs t tm = rfc_text cs off fs.
+Proof.
+  unfold render_spec. rewrite lex_rfc. cbn [flat_map render_tok render_lib].
+  rewrite app_nil_r. rewrite <- (app_assoc (dec2 (fss cs))). reflexivity.
+Qed.
+
+(* ---- every byte of the text is non-NUL, and it does not start with a space ---- *)
+
+Definition nz (c : Z) : bool := negb (c =? 0).
+
+Lemma c_str_id s : forallb nz s = true -> c_str s = s.
+Proof.
+  induction s as [|c r IH]; intros H; [reflexivity|].
+  cbn [forallb] in H. apply andb_true_iff in H. destruct H as [H1 H2].
+  cbn [c_str]. unfold nz in H1. destruct (c =? 0); [discriminate|]. rewrite IH; auto.
+Qed.
+
+Lemma digits_nz l : forallb is_digit l = true -> forallb nz l = true.
+Proof.
+  induction l as [|c r IH]; intros H; [reflexivity|].
+  cbn [forallb] in *. apply andb_true_iff in H. destruct H as [H1 H2].
+  rewrite IH by exact H2. apply is_digit_range in H1. unfold nz.
+  destruct (Z.eqb_spec c 0); [lia|reflexivity].
+Qed.
+
+Lemma dec2_eq v : 0 <= v <= 99 -> dec2 v = [48 + v / 10; 48 + v mod 10].
+Proof.
+  intros H. pose proof (format02d_ok v H) as A. rewrite pp_format02d in A by lia. congruence.
+Qed.
+
+Lemma dec2_nz v : 0 <= v <= 99 -> forallb nz (dec2 v) = true.
+Proof.
+  intros H. rewrite dec2_eq by lia. apply digits_nz. cbn [forallb].
+  rewrite !is_digit_48 by lia. reflexivity.
+Qed.
+
+Lemma pow40 : 9223372036854775808 < 10 ^ Z.of_nat 40.
+Proof. vm_compute. reflexivity. Qed.
+
+Lemma dec_digits_shape v : 0 <= v <= 9223372036854775808 ->
+  exists c r, dec_digits v = c :: r /\ forallb is_digit (c :: r) = true.
+Proof.
+  intros H. pose proof pow40 as P. unfold dec_digits.
+  destruct (pp_dec_digits_fuel 40 v [] ltac:(lia)) as (ds & E & Hd & _).
+  pose proof (ddf_nonempty 39 v []) as N. rewrite E in *. rewrite app_nil_r in *.
+  destruct ds as [|c r]; [cbn [length] in N; lia|]. eauto.
+Qed.
+
+Lemma dec_shape v : int64 v ->
+  exists c r, dec v = c :: r /\ is_space c = false /\ forallb nz (c :: r) = true.
+Proof.
+  intros H. unfold int64, min64, max64 in H. unfold dec.
+  destruct (Z.ltb_spec v 0) as [N|N].
+  - destruct (dec_digits_shape (- v) ltac:(lia)) as (c & r & E & D).
+    exists 45, (dec_digits (- v)). split; [reflexivity|]. split; [reflexivity|].
+    cbn [forallb]. change (nz 45) with true. cbn [andb]. rewrite E. apply digits_nz. exact D.
+  - destruct (dec_digits_shape v ltac:(lia)) as (c & r & E & D).
+    exists c, r. split; [exact E|]. split; [|apply digits_nz; exact D].
+    cbn [forallb] in D. apply andb_true_iff in D. destruct D as [D _].
+    apply is_digit_range in D. unfold is_space.
+    destruct (Z.eqb_spec c 32); [lia|]. destruct (Z.leb_spec 9 c); destruct (Z.leb_spec c 13); try reflexivity; lia.
+Qed.
+
+Lemma frac_min_digits fs : 0 <= fs < 10 ^ 15 -> forallb is_digit (frac_min fs) = true.
+Proof.
+  intros H. destruct (pp_pad15 fs H) as (_ & Hd & _). unfold frac_min.
+  destruct (pp_strip (pad_left 15 48 (dec_digits fs))) as [j Hj].
+  set (P := pad_left 15 48 (dec_digits fs)) in *. clearbody P.
+  set (Q := rev (strip_zeros_r (rev P))) in *. clearbody Q. subst P.
+  rewrite forallb_app in Hd. apply andb_true_iff in Hd. tauto.
+Qed.
+
+Lemma frac_min_0 : frac_min 0 = [].
+Proof. vm_compute. reflexivity. Qed.
+
+Lemma frac_min_nil fs : 0 <= fs < 10 ^ 15 -> frac_min fs = [] -> fs = 0.
+Proof.
+  intros H E. destruct (Z.eq_dec fs 0) as [|N]; [assumption|]. exfalso.
+  destruct (subsec_roundtrip_lemma fs [] H I) as [_ R]. specialize (R N).
+  rewrite E in R. vm_compute in R. discriminate.
+Qed.
+
+Lemma frac_part_nz fs : 0 <= fs < 10 ^ 15 -> forallb nz (frac_part fs) = true.
+Proof.
+  intros H. unfold frac_part. pose proof (frac_min_digits fs H) as D.
+  destruct (frac_min fs) as [|c q]; [reflexivity|].
+  change (forallb nz (46 :: c :: q)) with (nz 46 && forallb nz (c :: q)).
+  rewrite digits_nz by exact D. reflexivity.
+Qed.
+
+Lemma offset_text off : -86400 < off < 86400 ->
+  exists rest, render_offset off [58] true false = (if off <? 0 then 45 else 43) :: rest /\
+               forallb nz rest = true.
+Proof.
+  intros H. unfold render_offset, off_parts. cbn [app].
+  eexists. split; [reflexivity|].
+  assert (Ha : 0 <= Z.abs off < 86400) by lia. set (a := Z.abs off) in *. clearbody a.
+  rewrite !forallb_app. cbn [forallb]. change (nz 58) with true. cbn [andb].
+  rewrite !forallb_app. cbn [forallb]. change (nz 58) with true. cbn [andb].
+  rewrite !dec2_nz by lia. reflexivity.
+Qed.
+
+Lemma rfc_text_shape cs off fs : valid_fields cs = true -> int64 (fy cs) -> -86400 < off < 86400 ->
+  0 <= fs < 10 ^ 15 ->
+  c_str (rfc_text cs off fs) = rfc_text cs off fs /\ skip_space (rfc_text cs off fs) = rfc_text cs off fs.
+Proof.
+  intros V Iy Ho Hfs.
+  apply valid_fields_inv in V. destruct V as (V & Hh & Hmi & Hs).
+  pose proof (valid_date_inv _ _ _ V) as [Hm Hd]. pose proof (dim_range (fy cs) (fm cs)) as R.
+  destruct (dec_shape (fy cs) Iy) as (c & r & E & Hsp & Hnz).
+  destruct (offset_text off Ho) as (rest & EK & NK).
+  split.
+  - apply c_str_id. unfold rfc_text. rewrite E.
+    rewrite forallb_app, Hnz. cbn [andb forallb]. change (nz 45) with true. cbn [andb].
+    rewrite forallb_app, dec2_nz by lia. cbn [andb forallb]. change (nz 45) with true. cbn [andb].
+    rewrite forallb_app, dec2_nz by lia. cbn [andb forallb]. change (nz 84) with true. cbn [andb].
+    rewrite forallb_app, dec2_nz by lia. cbn [andb forallb]. change (nz 58) with true. cbn [andb].
+    rewrite forallb_app, dec2_nz by lia. cbn [andb forallb]. change (nz 58) with true. cbn [andb].
+    rewrite forallb_app, dec2_nz by lia. cbn [andb].
+    rewrite forallb_app, frac_part_nz by exact Hfs. cbn [andb].
+    rewrite EK. cbn [forallb]. rewrite NK. destruct (off <? 0); reflexivity.
+  - unfold rfc_text. rewrite E. cbn [app skip_space]. rewrite Hsp. reflexivity.
+Qed.
+
+(* ---- the scanning loop, one format item at a time ---- *)
+
+Section Scan3339.
+Variable so : list Z -> list Z -> tmrec -> option (list Z * tmrec).
+
+Lemma scan_loop_S n c f data s :
+  scan_loop so (S n) (c :: f) data s =
+  (do '(fmt', r) <- scan_step so (c :: f) data s ;;
+   match r with None => OK None | Some (data', s') => scan_loop so n fmt' data' s' end).
+Proof. reflexivity. Qed.
+
+Lemma step_Y f data s : scan_step so (37 :: 89 :: f) data s =
+  match parse_int64 data 0 min64 max64 with
+  | Some (v, d1) => OK (f, Some (d1, set_year s v))
+  | None => OK (f, None)
+  end.
+Proof. reflexivity. Qed.
+Lemma step_m f data s : scan_step so (37 :: 109 :: f) data s =
+  match parse_int32 data 2 1 12 with
+  | Some (v, d1) => OK (f, Some (d1, set_week (set_tm s (tm_with (ps_tm s) 4 (v - 1))) (-1) (ps_week_start s)))
+  | None => OK (f, None)
+  end.
+Proof. reflexivity. Qed.
+Lemma step_d f data s : scan_step so (37 :: 100 :: f) data s =
+  match parse_int32 data 2 1 31 with
+  | Some (v, d1) => OK (f, Some (d1, set_week (set_tm s (tm_with (ps_tm s) 3 v)) (-1) (ps_week_start s)))
+  | None => OK (f, None)
+  end.
+Proof. reflexivity. Qed.
+Lemma step_H f data s : scan_step so (37 :: 72 :: f) data s =
+  match parse_int32 data 2 0 23 with
+  | Some (v, d1) => OK (f, Some (d1, set_twelve (set_tm s (tm_with (ps_tm s) 2 v)) false))
+  | None => OK (f, None)
+  end.
+Proof. reflexivity. Qed.
+Lemma step_M f data s : scan_step so (37 :: 77 :: f) data s =
+  match parse_int32 data 2 0 59 with
+  | Some (v, d1) => OK (f, Some (d1, set_tm s (tm_with (ps_tm s) 1 v)))
+  | None => OK (f, None)
+  end.
+Proof. reflexivity. Qed.
+Lemma step_ES f data s : scan_step so (37 :: 69 :: 42 :: 83 :: f) data s =
+  (do r <- parse_ext_seconds data s ;; OK (f, r)).
+Proof. reflexivity. Qed.
+Lemma step_Ez f data s : scan_step so (37 :: 69 :: 42 :: 122 :: f) data s =
+  match fmt_parse_offset data 58 with
+  | Some (o, d1) => OK (f, Some (d1, set_offset s o))
+  | None => OK (f, None)
+  end.
+Proof. reflexivity. Qed.
+Lemma step_lit c f k s : is_space c = false -> c <> 37 ->
+  scan_step so (c :: f) (c :: k) s = OK (f, Some (k, s)).
+Proof.
+  intros H1 H2. unfold scan_step. rewrite H1.
+  destruct (Z.eqb_spec c 37) as [|_]; [contradiction|]. cbn [negb]. rewrite Z.eqb_refl. reflexivity.
+Qed.
+
+Lemma p2 v k lo hi : 0 <= v <= 99 -> lo <= v <= hi -> 0 <= lo ->
+  parse_int32 (dec2 v ++ k) 2 lo hi = Some (v, k).
+Proof. intros. apply parseint_format02d_lemma; auto. apply format02d_ok; lia. Qed.
+
+Lemma loop_lit n c f k s : is_space c = false -> c <> 37 ->
+  scan_loop so (S n) (c :: f) (c :: k) s = scan_loop so n f k s.
+Proof. intros H1 H2. rewrite scan_loop_S, step_lit by assumption. reflexivity. Qed.
+
+Lemma loop_Y n f v k s : int64 v -> no_digit_head' k ->
+  scan_loop so (S n) (37 :: 89 :: f) (dec v ++ k) s = scan_loop so n f k (set_year s v).
+Proof.
+  intros Hv Hk. rewrite scan_loop_S, step_Y.
+  rewrite (parseint_format64_lemma v k (dec v) Hv Hk (format64_0 v Hv)). reflexivity.
+Qed.
+Lemma loop_m n f v k s : 1 <= v <= 12 ->
+  scan_loop so (S n) (37 :: 109 :: f) (dec2 v ++ k) s =
+  scan_loop so n f k (set_week (set_tm s (tm_with (ps_tm s) 4 (v - 1))) (-1) (ps_week_start s)).
+Proof. intros H. rewrite scan_loop_S, step_m, p2 by lia. reflexivity. Qed.
+Lemma loop_d n f v k s : 1 <= v <= 31 ->
+  scan_loop so (S n) (37 :: 100 :: f) (dec2 v ++ k) s =
+  scan_loop so n f k (set_week (set_tm s (tm_with (ps_tm s) 3 v)) (-1) (ps_week_start s)).
+Proof. intros H. rewrite scan_loop_S, step_d, p2 by lia. reflexivity. Qed.
+Lemma loop_H n f v k s : 0 <= v <= 23 ->
+  scan_loop so (S n) (37 :: 72 :: f) (dec2 v ++ k) s =
+  scan_loop so n f k (set_twelve (set_tm s (tm_with (ps_tm s) 2 v)) false).
+Proof. intros H. rewrite scan_loop_S, step_H, p2 by lia. reflexivity. Qed.
+Lemma loop_M n f v k s : 0 <= v <= 59 ->
+  scan_loop so (S n) (37 :: 77 :: f) (dec2 v ++ k) s =
+  scan_loop so n f k (set_tm s (tm_with (ps_tm s) 1 v)).
+Proof. intros H. rewrite scan_loop_S, step_M, p2 by lia. reflexivity. Qed.
+
+Lemma loop_ES n f v fs sg rest s : 0 <= v <= 59 -> 0 <= fs < 10 ^ 15 -> sg = 43 \/ sg = 45 ->
+  scan_loop so (S n) (37 :: 69 :: 42 :: 83 :: f) (dec2 v ++ frac_part fs ++ sg :: rest) s =
+  scan_loop so n f (sg :: rest)
+    (if fs =? 0 then set_tm s (tm_with (ps_tm s) 0 v)
+     else set_subsec (set_tm s (tm_with (ps_tm s) 0 v)) fs).
+Proof.
+  intros Hv Hfs Hsg. rewrite scan_loop_S, step_ES, pes_unf.
+  change (rng src_parse_range_S 0) with 0. change (rng src_parse_range_S 1) with 60.
+  rewrite p2 by lia. unfold frac_part.
+  destruct (frac_min fs) as [|c q] eqn:EF.
+  - rewrite (frac_min_nil fs Hfs EF). cbn [app]. change (0 =? 0) with true. cbv iota.
+    destruct Hsg as [-> | ->]; reflexivity.
+  - assert (N : fs <> 0) by (intros ->; rewrite frac_min_0 in EF; discriminate).
+    assert (K : no_digit_head' (sg :: rest)) by (destruct Hsg as [-> | ->]; reflexivity).
+    destruct (subsec_roundtrip_lemma fs (sg :: rest) Hfs K) as [_ R]. specialize (R N).
+    rewrite EF in R. cbn [app] in R |- *. change (46 =? 46) with true. cbv iota.
+    rewrite R. cbn [bind]. destruct (Z.eqb_spec fs 0) as [|_]; [contradiction|]. reflexivity.
+Qed.
+
+Lemma loop_Ez n off K6 s : -86400 < off < 86400 -> format_offset off [58; 42] = OK K6 ->
+  scan_loop so (S (S n)) [37; 69; 42; 122] K6 s = OK (Some ([], set_offset s off)).
+Proof.
+  intros Ho HF. rewrite scan_loop_S, step_Ez.
+  pose proof (parseoffset_formatoffset_full_lemma off [] K6 Ho I HF) as P.
+  rewrite app_nil_r in P. rewrite P. reflexivity.
+Qed.
+
+Definition rfc_state (cs : fields) (off fs : Z) : pstate :=
+  mkPS (fy cs) true (mkTM (fss cs) (fmm cs) (fhh cs) (fd cs) (fm cs - 1) 70 4 0 0) fs true off
+       false false (-1) 6 false 0.
+
+Lemma scan_rfc cs off fs : valid_fields cs = true -> int64 (fy cs) -> -86400 < off < 86400 ->
+  0 <= fs < 10 ^ 15 ->
+  scan_loop so 24 rfc3339 (rfc_text cs off fs) ps0 = OK (Some ([], rfc_state cs off fs)).
+Proof.
+  intros V Iy Ho Hfs.
+  apply valid_fields_inv in V. destruct V as (V & Hh & Hmi & Hs).
+  pose proof (valid_date_inv _ _ _ V) as [Hm Hd]. pose proof (dim_range (fy cs) (fm cs)) as R.
+  destruct (offset_text off Ho) as (rest & EK & _).
+  unfold rfc3339, rfc_text.
+  rewrite loop_Y by (auto; reflexivity).
+  rewrite loop_lit by (first [reflexivity | discriminate]).
+  rewrite loop_m by lia.
+  rewrite loop_lit by (first [reflexivity | discriminate]).
+  rewrite loop_d by lia.
+  rewrite loop_lit by (first [reflexivity | discriminate]).
+  rewrite loop_H by lia.
+  rewrite loop_lit by (first [reflexivity | discriminate]).
+  rewrite loop_M by lia.
+  rewrite loop_lit by (first [reflexivity | discriminate]).
+  rewrite EK.
+  rewrite loop_ES by (try lia; destruct (off <? 0); auto).
+  rewrite <- EK.
+  rewrite (loop_Ez _ off) by (try lia; apply format_offset_ccz; lia).
+  unfold rfc_state, ps0, tm0.
+  destruct (Z.eqb_spec fs 0) as [->|_]; reflexivity.
+Qed.
+End Scan3339.
+
+Lemma rfc3339_roundtrip_lemma : forall strftime_o strptime_o utc tz al fs t,
+  reset_to_builtin_utc 0 = OK utc ->
+  valid_fields (al_cs al) = true -> int64 (fy (al_cs al)) -> -86400 < al_off al < 86400 ->
+  0 <= fs < 10 ^ 15 -> int64 t ->
+  sec_of (al_cs al) = t + al_off al ->
+  exists txt, format_impl strftime_o rfc3339 al fs t = OK txt /\
+              parse_impl strptime_o tz utc rfc3339 txt = OK (Some (t, fs)).
+Proof.
+  intros sf sp utc tz al fs t Hutc V Iy Ho Hfs It Hsec.
+  assert (Ho' : -86400 <= al_off al <= 86400) by lia.
+  pose proof (format_lib_only_lemma sf rfc3339 al fs t (mkTM 0 0 0 0 0 0 0 0 0) lib_only_rfc
+                (conj V (conj Iy Ho')) Hfs It) as HF.
+  rewrite render_rfc in HF.
+  exists (rfc_text (al_cs al) (al_off al) fs). split; [exact HF|].
+  destruct (rfc_text_shape (al_cs al) (al_off al) fs V Iy Ho Hfs) as [E1 E2].
+  unfold parse_impl. rewrite E1, E2.
+  change (c_str rfc3339) with rfc3339. change (S (length rfc3339)) with 24%nat.
+  rewrite (scan_rfc sp (al_cs al) (al_off al) fs V Iy Ho Hfs). cbn [bind].
+  pose proof V as V'. apply valid_fields_inv in V'. destruct V' as (Vd & Hh & Hmi & Hs).
+  pose proof (valid_date_inv _ _ _ Vd) as [Hm Hd].
+  pose proof (dim_range (fy (al_cs al)) (fm (al_cs al))) as R.
+  rewrite (finish_utc_correct_lemma tz utc [] (rfc_state (al_cs al) (al_off al) fs) Hutc
+             (or_introl eq_refl) eq_refl eq_refl eq_refl);
+    try (cbn [rfc_state ps_tm ps_offset ps_year tm_sec tm_min tm_hour tm_mday tm_mon tm_year]; lia);
+    try exact Iy; try reflexivity.
+  f_equal. unfold finish_expected.
+  cbn [rfc_state ps_tm ps_offset ps_year ps_saw_year ps_twelve ps_afternoon ps_subsec
+       tm_sec tm_min tm_hour tm_mday tm_mon tm_year andb].
+  destruct (Z.eqb_spec (fss (al_cs al)) 60) as [C|_]; [lia|].
+  replace (fm (al_cs al) - 1 + 1) with (fm (al_cs al)) by lia.
+  rewrite Vd. cbn [andb].
+  change (days_from_civil (fy (al_cs al)) (fm (al_cs al)) (fd (al_cs al)) * 86400 + fhh (al_cs al) * 3600 +
+          fmm (al_cs al) * 60 + fss (al_cs al)) with (sec_of (al_cs al)).
+  rewrite Hsec. replace (t + al_off al - al_off al + 0) with t by lia.
+  apply in64_spec in It. rewrite It. reflexivity.
+Qed.
+
+(* Status: finish_utc_correct_lemma (Goal 1, C09) and rfc3339_roundtrip_lemma
+   (Goal 2, C07) are proved exactly as stated, with no additional hypotheses;
+   nothing in this file is left unproved.  Note for maintainers: MX / MN are the
+   literal values of sec_of civil_max64 / civil_min64 (MX_eq / MN_eq, by
+   vm_compute) and are Opaque: letting the unifier or `fold` convert
+   `sec_of civil_max64` by lazy reduction does not terminate in reasonable time. *)
